@@ -724,13 +724,19 @@ impl HttpContext {
                         // RFC: not standardized, but the de-facto correlation
                         // header used by Envoy/HAProxy/most LBs. Preserve the
                         // client-supplied value verbatim — overwriting it
-                        // breaks end-to-end request tracing.
-                        has_x_request_id = true;
-                        self.x_request_id = header
-                            .val
-                            .data_opt(buf)
-                            .and_then(|data| from_utf8(data).ok())
-                            .map(ToOwned::to_owned);
+                        // breaks end-to-end request tracing. Only the first
+                        // field is kept: a request id is a single value, a
+                        // repeated field would hand the backend several.
+                        if has_x_request_id {
+                            header.elide();
+                        } else {
+                            has_x_request_id = true;
+                            self.x_request_id = header
+                                .val
+                                .data_opt(buf)
+                                .and_then(|data| from_utf8(data).ok())
+                                .map(ToOwned::to_owned);
+                        }
                     } else if compare_no_case(key, self.sozu_id_header.as_bytes()) {
                         // The correlation header is owned by the proxy: it is
                         // pushed below with this request's ULID. A value
